@@ -1,7 +1,8 @@
 (* C01 — ElGamal decrypt inverts encrypt. Pinned statements only. *)
 From Coq Require Import ZArith List.
 From Strand Require Import Base.ZUtil Model.Outcome Model.Backend Model.ZBackend Model.Zkp Model.Exec
-  Proofs.Laws Proofs.ZLaws Proofs.ElgamalP Proofs.ZInst Proofs.Corollaries.
+  Proofs.Laws Proofs.ZLaws Proofs.ElgamalP Proofs.ZInst Proofs.Corollaries
+  Model.Ristretto Model.RistrettoFast Model.RBackend Proofs.RistrettoGroup.
 Open Scope Z_scope.
 
 (* any backend whose operations satisfy the group laws (this is what ristretto is assumed to satisfy,
@@ -46,3 +47,18 @@ Print Assumptions C01_encrypt_and_pok.
 Example C01_nonvacuous :
   decrypt (ZB K_ref Bigint (mkP 23)) 7 (encrypt_with_randomness (ZB K_ref Bigint (mkP 23)) (pk_of_sk (ZB K_ref Bigint (mkP 23)) 7) 9 10) = Ok 9.
 Proof. vm_compute. reflexivity. Qed.
+
+(* the ristretto backend record of the model (Model/RBackend.v over the executable curve arithmetic of
+   Model/Ristretto.v), WITHOUT any group-law hypothesis: for every kernel, secret key, randomness and every valid
+   message point, decryption of the encryption succeeds and returns the message point — the same point of the
+   Edwards curve (equal affine image), hence equal under the backend's own equality (RFC 9496 4.3.3).
+   [valid] = extended coordinates with Z <> 0, on the curve, T Z = X Y (Proofs/RistrettoGroup.v). *)
+Theorem C01_ristretto_roundtrip : forall (K : Kernel) (PM : PMul) sk r m, valid m ->
+  exists d, decrypt (RB K PM) sk (encrypt_with_randomness (RB K PM) (pk_of_sk (RB K PM) sk) m r) = Ok d /\
+            valid d /\ aff d = aff m /\ b_eqb (RB K PM) d m = true.
+Proof. exact rb_elgamal_roundtrip. Qed.
+Print Assumptions C01_ristretto_roundtrip.
+
+(* non-vacuity: the base point is a valid message point *)
+Example C01_ristretto_nonvacuous : valid (pt_base K_ref).
+Proof. exact (valid_base K_ref). Qed.
